@@ -538,24 +538,26 @@ func (d *Downstream) resume(parentConn *Conn) error {
 	d.wireConn = parentConn.wireConn
 
 	var resErr error
+	// subscribe once; only the resume request itself is retried (a second subscription under the same alias is refused)
+	dpsCh, err := d.wireConn.SubscribeDownstreamChunk(d.ctx, d.idAlias, d.Config.QoS)
+	if err != nil {
+		resErr = fmt.Errorf("failed to SubscribeDownstreamChunk: %w", err)
+		d.closeWithError(d.ctx, resErr)
+		return resErr
+	}
+	ackCompCh, err := d.wireConn.SubscribeDownstreamChunkAckComplete(d.ctx, d.idAlias)
+	if err != nil {
+		resErr = fmt.Errorf("failed to SubscribeDownstreamChunkAckComplete: %w", err)
+		d.closeWithError(d.ctx, resErr)
+		return resErr
+	}
+	metaCh, err := parentConn.subscribeDownstreamMetadata(d.ctx, d.idAlias, d.Config.Filters)
+	if err != nil {
+		resErr = fmt.Errorf("failed to subscribeDownstreamMetadata: %w", err)
+		d.closeWithError(d.ctx, resErr)
+		return resErr
+	}
 	retry.Do(func() (end bool) {
-		dpsCh, err := d.wireConn.SubscribeDownstreamChunk(d.ctx, d.idAlias, d.Config.QoS)
-		if err != nil {
-			resErr = fmt.Errorf("failed to SubscribeDownstreamChunk: %w", err)
-			return true
-		}
-		ackCompCh, err := d.wireConn.SubscribeDownstreamChunkAckComplete(d.ctx, d.idAlias)
-		if err != nil {
-			resErr = fmt.Errorf("failed to SubscribeDownstreamChunkAckComplete: %w", err)
-			return true
-		}
-
-		metaCh, err := parentConn.subscribeDownstreamMetadata(d.ctx, d.idAlias, d.Config.Filters)
-		if err != nil {
-			resErr = fmt.Errorf("failed to subscribeDownstreamMetadata: %w", err)
-			return true
-		}
-
 		resp, err := d.wireConn.SendDownstreamResumeRequest(d.ctx, &message.DownstreamResumeRequest{
 			StreamID:             d.ID,
 			DesiredStreamIDAlias: d.idAlias,
